@@ -4,6 +4,7 @@
 patch="$1"; prop="$2"; tier="${3:-quick}"; shift 3 2>/dev/null
 export GOFLAGS=-mod=mod GOPROXY=off GOSUMDB=off GOTOOLCHAIN=local
 git -C /repo apply "$patch" || { echo "PATCH DOES NOT APPLY"; exit 3; }
-/verif/bin/symgo run --property "$prop" --tier "$tier" --no-evidence "$@" 2>/dev/null | grep -E "VIOLATION|KNOWN|UNCONF|INCONCL|SUMMARY"
+trap 'git -C /repo checkout -- .' EXIT INT TERM
+/verif/bin/symgo run --property "$prop" --tier "$tier" --no-evidence --budget 900s "$@" 2>/dev/null | grep -E "VIOLATION|KNOWN|UNCONF|INCONCL|SUMMARY"
 git -C /repo checkout -- .
 git -C /repo status --short | grep -v '^??'
